@@ -32,6 +32,7 @@ def run(ctx):
     ctx.step(check_guarded_fields, ctx, "C18.guard", CLS)
     ctx.step(onecs, ctx)
     ctx.step(pair, ctx)
+    ctx.step(drop_rule, ctx)
     ctx.step(fulfill_all, ctx)
     ctx.step(dtor, ctx)
     ctx.step(query, ctx)
@@ -115,6 +116,45 @@ def _map_of(f, p, at=None):
     return None
 
 
+def drop_rule(ctx, rid="C18.drop"):
+    """a promise whose future has been handed out is never destroyed unsatisfied (the consumer would get broken_promise):
+    an operation that replaces or empties a whole pending map (assignment, clear, swap) satisfies its promises first"""
+    ctx.rule(rid, "a pending map is overwritten or emptied only after its promises were satisfied", floor=2)
+    for f in ctx.fb.functions(rec=CLS):
+        if f.kind == "ctor":
+            continue
+        svs = [st for st in f.stmts.values() if st["k"] == "CXXMemberCallExpr" and st["callee"]["name"] in ("set_value", "set_exception")
+               and f.pos_of(st)]
+        for st in f.stmts.values():
+            tgt = None
+            how = None
+            if st["k"] == "CXXOperatorCallExpr" and st.get("op") == "=" and len(st["args"]) == 2:
+                tgt, how = path(f, f.s(st["args"][0])), "assigned over"
+            elif st["k"] == "CXXMemberCallExpr" and st["callee"]["name"] in ("clear", "swap"):
+                tgt, how = path(f, f.s(st["obj"])), st["callee"]["name"] + "()"
+            if not tgt or not tgt.startswith("this.") or tgt[5:] not in PENDING or f.pos_of(st) is None:
+                continue
+            pm = tgt[5:]
+            def map_of_sv(sv):
+                # by declaration (two loops may both call their iterator `obj`)
+                for d in f.descendants(f.s(sv["obj"])):
+                    if d["k"] == "DeclRefExpr" and d["d"].get("k") == "local":
+                        for s2 in f.stmts.values():
+                            if s2["k"] == "DeclStmt":
+                                for dd in s2["decls"]:
+                                    if dd["id"] == d["d"].get("id") and dd.get("init"):
+                                        for x in f.descendants(f.s(dd["init"])):
+                                            if x["k"] == "MemberExpr" and x["m"].get("is_field") and x["m"].get("rec") == CLS:
+                                                return x["m"]["name"]
+                return _map_of(f, path(f, f.s(sv["obj"])), sv)
+            before = [sv for sv in svs if map_of_sv(sv) == pm and
+                      f.reach_avoiding(tuple(f.pos_of(sv)), tuple(f.pos_of(st)), [])]
+            ok = bool(before)
+            ctx.ob(rid, ok, f.loc(st), "%s: %s is %s only after its promises were given a value" % (f.name, pm, how), "" if ok else
+                   "the promises still waiting in %s are destroyed without a value: every consumer blocked on one of their futures "
+                   "gets std::future_error(broken_promise)" % pm, fn=f.label, inst=f.qname)
+
+
 def pair(ctx, rid="C18.pair"):
     ctx.rule(rid, "set_value only on a promise still in a pending map; then moved to the matching used map and removed "
              "from the pending map before the lock is released; removal only after set_value", floor=6)
@@ -123,6 +163,8 @@ def pair(ctx, rid="C18.pair"):
     for f in fb.functions(rec=CLS):
         if f.kind in ("ctor", "dtor"):
             continue
+        if f.name == "operator=" and f.params and f.params[0].get("type", "").rstrip().endswith("&&"):
+            continue        # a move assignment retires the old content the way the destructor does (C18.drop judges it)
         svs = [st for st in f.stmts.values() if st["k"] == "CXXMemberCallExpr" and st["callee"]["name"] in ("set_value", "set_exception")]
         muts = [st for st in f.stmts.values() if (st["k"] == "CXXMemberCallExpr" and st["callee"]["name"] in
                                                    ("erase", "clear", "extract", "insert", "emplace", "insert_or_assign", "swap", "merge")
